@@ -499,10 +499,11 @@ type VerifHtable struct {
 	slot  *htslot[int, int]
 	found *cacheItem[int, int]
 	last  map[int]*cacheItem[int, int] // most recent item object created per key (for stale removal)
+	older map[int]*cacheItem[int, int] // the item object created before that one
 }
 
 func NewVerifHtable(capHint int) *VerifHtable {
-	return &VerifHtable{t: newHtable[int, int](capHint), last: map[int]*cacheItem[int, int]{}}
+	return &VerifHtable{t: newHtable[int, int](capHint), last: map[int]*cacheItem[int, int]{}, older: map[int]*cacheItem[int, int]{}}
 }
 
 func (h *VerifHtable) mk(key int, hash uint64, val int) *cacheItem[int, int] {
@@ -512,6 +513,9 @@ func (h *VerifHtable) mk(key int, hash uint64, val int) *cacheItem[int, int] {
 
 func (h *VerifHtable) Store(key int, hash uint64, val int) (int, bool) {
 	it := h.mk(key, hash, val)
+	if p := h.last[key]; p != nil {
+		h.older[key] = p
+	}
 	h.last[key] = it
 	if prev := h.t.store(it); prev != nil {
 		return prev.value, true
@@ -538,6 +542,9 @@ func (h *VerifHtable) Probe(key int, hash uint64) (bool, int) {
 
 func (h *VerifHtable) SwapAt(key int, hash uint64, val int) {
 	it := h.mk(key, hash, val)
+	if p := h.last[key]; p != nil {
+		h.older[key] = p
+	}
 	h.last[key] = it
 	h.t.swapAt(h.slot, it)
 	h.found, h.slot = nil, nil
@@ -545,6 +552,9 @@ func (h *VerifHtable) SwapAt(key int, hash uint64, val int) {
 
 func (h *VerifHtable) Publish(key int, hash uint64, val int) {
 	it := h.mk(key, hash, val)
+	if p := h.last[key]; p != nil {
+		h.older[key] = p
+	}
 	h.last[key] = it
 	h.t.publish(it, h.cur)
 }
@@ -570,7 +580,22 @@ func (h *VerifHtable) RemoveLastObject(key int) (bool, bool) {
 	return h.t.removeExact(it), true
 }
 
-func (h *VerifHtable) Clear()   { h.t.clear(); h.last = map[int]*cacheItem[int, int]{} }
+func (h *VerifHtable) Clear() {
+	h.t.clear()
+	h.last = map[int]*cacheItem[int, int]{}
+	h.older = map[int]*cacheItem[int, int]{}
+}
+
+// RemoveOlderObject calls removeExact with the item object created for key BEFORE the most recent one: a stale
+// pointer whenever the most recent one is resident. Reports (removed, had such an object, most recent is resident).
+func (h *VerifHtable) RemoveOlderObject(key int) (bool, bool, bool) {
+	it := h.older[key]
+	if it == nil {
+		return false, false, false
+	}
+	cur, ok := h.t.lookup(h.last[key].hash, key)
+	return h.t.removeExact(it), true, ok && cur == h.last[key]
+}
 func (h *VerifHtable) Len() int { return h.t.length() }
 func (h *VerifHtable) Counters() (live, tombs, slots int, pinned int64) {
 	d := h.t.data.Load()
